@@ -249,14 +249,18 @@ func VerifK12WriteStep() {
 	chg := ds.changes["s"]
 	vt.Assert(len(chg) >= 1 && chg[0] == old, "older change entry lost or replaced")
 
+	tag := "" // the ctx=1 job (nil vs empty condition context) names its findings
+	if vt.ParamInt("ctx", 0) != 0 {
+		tag = "[nil-vs-empty-context] "
+	}
 	if err != nil {
 		vt.Reach("rejected")
-		vt.Assert(invalid || conflict, "a request the reference accepts was rejected")
+		vt.Assert(invalid || conflict, tag+"a request the reference accepts was rejected")
 		if errors.Is(err, storage.ErrInvalidWriteInput) {
 			vt.Assert(invalid, "ErrInvalidWriteInput although no delete is missing and no write is a duplicate (options considered)")
 		} else {
 			vt.Assert(errors.Is(err, storage.ErrTransactionalWriteFailed), "rejected with an error that is neither ErrInvalidWriteInput nor a conflict")
-			vt.Assert(conflict, "condition conflict reported although no existing tuple differs in its condition")
+			vt.Assert(conflict, tag+"condition conflict reported although no existing tuple differs in its condition")
 		}
 		// atomicity: nothing changed
 		vt.Assert(len(got) == len(before), "failed Write changed the number of tuples")
